@@ -66,6 +66,9 @@ SEEDS: Dict[Tuple[str, str], str] = {
     ("predicate.symbolic_function.<locals>.wrapper", "args"): BOX, ("predicate.symbolic_function.<locals>.wrapper", "kwargs"): BOX,
     ("predicate.Predicate.__new__", "args"): BOX, ("predicate.Predicate.__new__", "kwargs"): BOX,
 }
+# public dataclass constructors that take user data directly: (class suffix, field) -> kind; their __post_init__ (and the properties it
+# reads, e.g. _name_ for the expression node) belong to the construction closure
+FIELD_SEEDS = {("conclusion.Conclusion", "value"): RAW}
 # builders that take krrood objects only: no user data enters through their parameters, but what they run is construction
 ENTRIES = ["quantify_entity.an", "quantify_entity.the", "rule.refinement", "rule.alternative", "rule.next_rule", "entity.inference",
            "match.match", "match.match_any", "match.match_all", "match.select", "match.select_any", "match.select_all"]
@@ -100,6 +103,16 @@ class BuildTaint:
             if p not in allp:
                 raise AnalysisError(f"LAZY-BUILD: builder {fs} has no parameter {p}")
             self.taint_param(f, p, k)
+        for (cs, fld), k in FIELD_SEEDS.items():
+            cq = next((q for q in self.prog.classes if q.endswith("." + cs)), None)
+            if cq is None or self.prog.lookup_attr(cq, fld) is None:
+                raise AnalysisError(f"LAZY-BUILD: seed field {cs}.{fld} vanished")
+            self.add_field(cq, fld, k)
+            for sc in self.prog.subclasses(cq):
+                for mname in ("__post_init__",):
+                    m = self.prog.lookup(sc.qual, mname)
+                    if m is not None and m not in self.work:
+                        self.work.append(m)
         for fs in ENTRIES:
             f = self.prog.functions.get(next((q for q in self.prog.functions if q.endswith("." + fs)), ""), None)
             if f is None:
@@ -866,6 +879,51 @@ def lazy_eval(prog: Program) -> RuleResult:
                 f"completely before its first element is produced")
     if n_maps < 3:
         raise AnalysisError("LAZY-EVAL: fewer than three domain mappings found (Attribute, Index, Call, Flatten are the confirmed instances)")
+    # the universal quantifier needs every value of the quantified expression only while a candidate is left: once its candidate set is
+    # empty the answer is decided, and the next value must not be pulled (the test has to sit at the end of the loop body - at the head
+    # the for statement has already advanced the domain)
+    from ..cfg import CFG
+
+    fa = prog.cls("symbolic.ForAll")
+    fe = prog.lookup(fa.qual, "_evaluate__")
+    cfg = CFG(fe.node)
+    outer = [n for n in cfg.nodes if n.kind == "for" and not n.loops and any(call_name(c) == "_evaluate__" for c in calls_in(n.stmt.iter))]
+    if len(outer) != 1:
+        raise AnalysisError("LAZY-EVAL: ForAll._evaluate__ no longer has one loop over the values of the quantified expression")
+    h = outer[0]
+    inits = {n.stmt.targets[0].id for n in cfg.nodes if isinstance(n.stmt, ast.Assign) and len(n.stmt.targets) == 1 and isinstance(n.stmt.targets[0], ast.Name)
+             and isinstance(n.stmt.value, ast.Constant) and n.stmt.value.value is None and not n.loops}
+    body = {n.id for n in cfg.nodes if h.id in n.loops}
+    cands = set()
+    for n in cfg.nodes:
+        if n.id in body and isinstance(n.stmt, ast.Assign):
+            for t in n.stmt.targets:
+                for x in ast.walk(t):
+                    if isinstance(x, ast.Name) and x.id in inits:
+                        cands.add(x.id)
+    if not cands:
+        raise AnalysisError("LAZY-EVAL: ForAll._evaluate__ has no candidate set initialised to None and narrowed in the loop")
+    for cand in sorted(cands):
+        shrink = [n for n in cfg.nodes if n.id in body and isinstance(n.stmt, ast.Assign) and any(isinstance(x, ast.Name) and x.id == cand for t in n.stmt.targets for x in ast.walk(t))
+                  and not (isinstance(n.stmt.value, (ast.List, ast.Tuple)) and not n.stmt.value.elts)]
+        # tests of emptiness whose taken branch leaves the loop
+        stops = set()
+        for t in cfg.nodes:
+            if t.id in body and t.kind == "test" and isinstance(t.stmt, ast.If):
+                tt = t.stmt.test
+                if isinstance(tt, ast.UnaryOp) and isinstance(tt.op, ast.Not) and isinstance(tt.operand, ast.Name) and tt.operand.id == cand and any(isinstance(x, ast.Break) for b in t.stmt.body for x in ast.walk(b)):
+                    stops.add(t.id)
+                if isinstance(tt, ast.Compare) and isinstance(tt.left, ast.Call) and call_name(tt.left) == "len" and src(tt.left.args[0]) == cand and any(isinstance(x, ast.Break) for b in t.stmt.body for x in ast.walk(b)):
+                    stops.add(t.id)
+        bad = None
+        for sn in shrink:
+            p = cfg.path_avoiding(sn.id, h.id, stops)
+            if p is not None:
+                bad = bad or (sn, p)
+        r.check(bad is None, f"ForAll._evaluate__#stops-when-decided:{cand}", site(fe, bad[0].stmt) if bad else site(fe), f"{len(shrink)} narrowing assignments, {len(stops)} emptiness tests that break",
+                "after every narrowing of the candidate set an emptiness test that leaves the loop is passed before the next value is taken",
+                f"after {src(bad[0].stmt)[:60] if bad else ''} control returns to the loop head along {cfg.describe(bad[1]) if bad else ''} without testing whether a candidate is left: "
+                f"the next value of the quantified expression is pulled from its (possibly one-shot, possibly expensive) domain although it cannot change the answer")
     # the public entry streams its results
     rq = prog.cls("symbolic.ResultQuantifier")
     e = prog.method(rq.qual, "evaluate", inherited=False)
